@@ -95,6 +95,7 @@ func Loop(ctx context.Context, lst Accepter, newService func() Service, opts *Lo
 
 	var wg sync.WaitGroup
 	for {
+		verifPointS("loop.accept", "")
 		ch, err := lst.Accept(ctx)
 		if err != nil {
 			if channel.IsErrClosing(err) {
